@@ -415,6 +415,7 @@ def run(chk, replay=None):
         'zseq.py': (_zseq, {'ZDomainSequence'})})
     bcov.start()
     stream_t = {}
+    sub_t = {}
     tmark = [time.time(), 'setup']
 
     only = os.environ.get('C13_ONLY')          # development aid: run only the named streams
@@ -431,7 +432,7 @@ def run(chk, replay=None):
     quick = chk.tier == 'quick'
     gen = replay is None                      # --replay <file>: only the recorded case is re-run
     NS = 12 if quick else 20                     # samples checked per sequence
-    budget = {'zt': 250 if quick else 2000, 'izt': 80 if quick else 800, 'resp': 120 if quick else 1200}
+    budget = {'zt': 215 if quick else 2000, 'izt': 80 if quick else 800, 'resp': 120 if quick else 1200}
     chk.coverage['rule'] = ('zt: a case = a sum of 1-3 terms coef*n^p*a^n*base (base: impulse/step with integer delay incl. advances, '
                             'constant, cos/sin(b n + c) with Pythagorean cos/sin values) compared at 2 (quick) / 4 (thorough) random rational z and '
                             'coefficient-wise for n <= %d, plus IZT(ZT) samples; izt/filt: a case = (b, a) with a from rational simple/repeated poles; '
@@ -465,17 +466,21 @@ def run(chk, replay=None):
         chk.count('zt.kind', '+'.join(sorted(set(t.kind + ('-adv' if t.advanced else '') for t in terms))))
         chk.count('zt.nterms', str(len(terms)))
         e = Lc.sig_expr(terms)
+        t0_ = time.time()
         try:
             X = Lc.lcapy.nexpr(e).ZT()
         except Exception as ex:   # noqa
             chk.count('zt.lcapy-error', type(ex).__name__)
             chk.case(('zt', toks), False)
             return
+        finally:
+            sub_t['zt: lcapy ZT()'] = sub_t.get('zt: lcapy ZT()', 0) + time.time() - t0_
         Xs = X.sympy
         if Xs.has(S.Sum):
             chk.count('degenerate', 'zt-no-closed-form')
             chk.case(('zt', toks), False)
             return
+        t0_ = time.time()
         try:
             Xr = Lc.trig_subs(Xs, terms)
             if Xr.free_symbols - {Lc.z}:
@@ -485,6 +490,8 @@ def run(chk, replay=None):
             chk.count('degenerate', 'zt-uncanonicalisable:' + type(ex).__name__)
             chk.case(('zt', toks), False)
             return
+        finally:
+            sub_t['zt: canonicalise'] = sub_t.get('zt: canonicalise', 0) + time.time() - t0_
         chk.case(('zt', toks), True)
         chk.sample({'stream': 'zt', 'terms': toks, 'lcapy': str(Xs)[:200]})
         # -- correspondence at random rational points
@@ -523,17 +530,21 @@ def run(chk, replay=None):
                 'unilateral z-transform closed form does not expand to the sequence')
             return
         # -- oracle 2: IZT(ZT(x))[n] = x[n], n = 0..NS
-        if rng.random() < (0.5 if quick else 0.7):
+        if rng.random() < (0.4 if quick else 0.7):
+            t0_ = time.time()
+            nsamp = NS if not (trig and quick) else 6        # sinusoid samples are the expensive ones to certify rational
             try:
                 xr = X.IZT(causal=True)
                 vals = []
-                for i in range(NS + 1):
+                for i in range(nsamp + 1):
                     v = xr(i).sympy
                     v = Lc.trig_subs(v, terms)
                     vals.append(Lc.tofrac(v))
             except Exception as ex:   # noqa
                 chk.count('degenerate', 'izt-unevaluable:' + type(ex).__name__)
                 return
+            finally:
+                sub_t['zt: IZT round trip'] = sub_t.get('zt: IZT round trip', 0) + time.time() - t0_
             chk.count('zt.izt-roundtrip', 'done')
             r = drv.ask1('sig.check 0 %s | %s' % (lst(vals), toks))
             if r != 'ok':
@@ -913,9 +924,13 @@ def run(chk, replay=None):
                 chk.count('degenerate', 'dft-unevaluable:' + str(ex)[:30])
                 return
             if fe.zero_times_singular:
-                chk.count('dft.delta-convention', 'needed')
+                if Xs.has(Lc.UI) or Xs.has(S.Piecewise):
+                    chk.count('dft.delta-convention', 'needed')
+                else:
+                    lv = 'pole'            # a genuine 0/0 of the closed form, no (1 - delta) factor that defines the value
             Xvals.append(lv)
             sv = int(drv.ask1('dft.spec %d %d | %s' % (N, q, toks)))
+            mv = None
             if modelled:
                 mv = drv.ask1('dft.model %s %d %d | %s' % ('sym' if symbolic else 'num', N, q, toks))
                 if mv == 'unmodelled' or lv == 'pole':
@@ -924,6 +939,11 @@ def run(chk, replay=None):
                     chk.coverage['correspondence']['compared'] += 1
                     if int(mv) != lv:
                         disagree('dft', {'terms': toks, 'N': N, 'k': k, 'symbolic_N': symbolic, 'lcapy_mod_P': lv, 'model_mod_P': int(mv)})
+            if symbolic and lv == 'pole' and root_geo and mv == 'unmodelled':
+                # symbolic N: the closed form (1 - (a q)^N ...)/(1 - a q)^m is 0/0 at the bin where a q = 1; whether that bin exists
+                # (a an N-th root of unity) is undecided for a symbol N, the expression has no value there: nothing to compare
+                chk.count('degenerate', 'dft-symbolic-N-closed-form-0/0-at-aq=1')
+                continue
             if lv != sv:
                 cex({'kind': 'dft', 'geo_base_is_root_of_unity': root_geo, 'impulse_index_wrapped': wrapped},
                     {'input': {'expr': str(e), 'terms': toks, 'N': N, 'symbolic_N': symbolic, 'k': k}, 'lcapy': str(Xs),
@@ -1123,7 +1143,7 @@ def run(chk, replay=None):
         chk.case(key, True)
         chk.sample({'stream': 'dft-directed', 'family': fam, 'expr': str(e)[:120], 'N': N, 'symbolic_N': symbolic, 'lcapy': str(Xs)[:200]})
         w = zeta(N, -1)
-        kk = {'kind': 'dft', 'geo_base_is_root_of_unity': False, 'impulse_index_wrapped': False, 'family': fam}
+        kk = {'kind': 'dft', 'geo_base_is_root_of_unity': False, 'impulse_index_wrapped': False, 'symbolic_N': symbolic, 'family': fam}
         kk.update(flags)
         for k in range(N):
             env = {Lc.k: S.Integer(k)}
@@ -1249,7 +1269,8 @@ def run(chk, replay=None):
         dft_generic_case(n_ ** 4, 7, True, 'n^p p>=4')
         # D8 impulses: at N - 1 for symbolic N, weighted by n, outside the window
         dft_generic_case(3 * Lc.UI(n_ - Nsym + 1), 9, True, 'impulse at N-1')
-        dft_generic_case(n_ * Lc.UI(n_ - Nsym + 2), 10, True, 'impulse at N-1')
+        dft_generic_case(n_ * Lc.UI(n_ - Nsym + 2), 10, True, 'impulse at N-1', flags={'impulse_index_wrapped': True})
+        dft_generic_case(R(Fraction(1, 2)) ** n_ * Lc.UI(n_ - Nsym + 1), 7, True, 'impulse at N-1', flags={'impulse_index_wrapped': True})
         for d in pick([-1, 7, 9], 2):
             dft_generic_case(2 * Lc.UI(n_ - d), 6, False, 'impulse outside')
         # D9 piecewise=True output
@@ -1337,7 +1358,7 @@ def run(chk, replay=None):
                 'sequence IZT(ZT(x)) does not return the sequence')
         # DFT / IDFT of the sequence (periodic reading of the indices): model + defining sum in F_P, round trip
         N = len(vals)
-        if (FP - 1) % N == 0:
+        if (FP - 1) % N == 0 and (not quick or state['case'] % 2 == 0):
             try:
                 X = x.DFT()
                 Xv = [FpEval(Lc, {}).ev(v.sympy) for v in X.vals]
@@ -1592,6 +1613,7 @@ def run(chk, replay=None):
     stream('end')
     bcov.stop()
     chk.coverage['stream_seconds'] = stream_t
+    chk.coverage['stream_seconds_detail'] = {k_: round(v_, 1) for k_, v_ in sub_t.items()}
     bt = bcov.table()
     # keep the evidence compact: per-file summary, the unreached list, and the full rows of the DFT/DTFT case analyses
     chk.coverage['branch_coverage'] = {'instrument': bt['instrument'], 'active': bt['active'], 'summary': bt['summary'],
